@@ -290,6 +290,10 @@ k("K117", "C16", "client/connection.go", "\t\t\tif holder.conn != nil {\n\t\t\t\
   "field-init:connectionHolder.conn", "nil connection of a pending accept closed")
 k("K118", "C16", "client/server.go", "func (c *CqlServerConnection) Send(f *frame.Frame) error {\n\tif c.IsClosed() {\n\t\treturn fmt.Errorf(\"%v: connection closed\", c)\n\t}\n", "func (c *CqlServerConnection) Send(f *frame.Frame) error {\n",
   "closed-test:CqlServerConnection.Send", "send without the closed-flag test")
+k("K126", "C13", "datacodec/timestamp.go", "\t\tif millis, overflow = multiplyExact(seconds, 1000); !overflow {\n\t\t\tmillis, overflow = addExact(millis, nanos/millisecond)\n\t\t}", "\t\tmillis, overflow = multiplyExact(seconds, 1000)\n\t\tmillis, overflow = addExact(millis, nanos/millisecond)",
+  "flag-examined:datacodec.ConvertTimeToEpochMillis -> multiplyExact#2", "overflow flag overwritten before it is tested")
+k("K127", "C13", "datacodec/int.go", "\tcase int64:\n\t\tval, err = int64ToInt32(s)\n", "\tcase int64:\n\t\tval, _ = int64ToInt32(s)\n",
+  "flag-examined:datacodec.convertToInt32 -> int64ToInt32#1", "range error discarded")
 # ---- C14
 k("K45", "C14", "datacodec/int.go", "\t\tif d == nil {\n\t\t\terr = ErrNilDestination\n\t\t} else if wasNull {\n\t\t\t*d = 0\n\t\t} else {\n\t\t\t*d = int64(val)\n\t\t}", "\t\tif d == nil {\n\t\t\terr = ErrNilDestination\n\t\t} else if !wasNull {\n\t\t\t*d = int64(val)\n\t\t}",
   "null-dest:convertFromInt32 case *int64", "NULL leaves the destination untouched")
